@@ -78,25 +78,64 @@ def has_empty_key(node):
     return False
 
 
+def first_parse(case):
+    """-> list of elements (root first), or a safe_parse-style error tuple."""
+    if case.get("definitions"):
+        doc = dict(copy.deepcopy(case["schema"]))
+        doc["definitions"] = copy.deepcopy(case["definitions"])
+        try:
+            return ("ok", parse(docs.materialized({"a.json": json.loads(json.dumps(doc))}, "a.json")))
+        except SchemaParseError as exc:
+            return ("parse-error", type(exc).__name__, str(exc)[:200])
+        except RecursionError:
+            return ("dependency", "RecursionError", "")
+        except Exception as exc:  # noqa: BLE001
+            if observe.statham_frame(exc) == "?":
+                return ("dependency", type(exc).__name__, str(exc)[:200])
+            return ("crash", type(exc).__name__, f"{observe.statham_frame(exc)}: {str(exc)[:200]}")
+    parsed = observe.safe_parse(case["schema"])
+    return ("ok", [parsed[1]]) if parsed[0] == "ok" else parsed
+
+
+def dangling_refs(doc):
+    from props.c03_json_serialisation import refs_of
+    from vlib import ref6
+
+    bad = []
+    for ref in refs_of(doc):
+        try:
+            ref6.resolve_ref(ref, "", ref6.Opts(store={"": doc}))
+        except (KeyError, IndexError, ValueError, TypeError):
+            bad.append(ref)
+    return sorted(set(bad))
+
+
 def predicate(case, stats):
     schema = case["schema"]
-    if has_empty_key(schema):
+    if has_empty_key(schema) or has_empty_key(case.get("definitions")):
         # json_ref_dict cannot address the member "" (pointer segment ""): dependency limit, not statham
         stats.excluded["empty-string-key (json_ref_dict pointer limit)"] += 1
         return []
-    parsed = observe.safe_parse(schema)
+    parsed = first_parse(case)
+    if parsed[0] == "dependency":
+        stats.inconclusive["dependency-error:" + parsed[1]] += 1
+        return []
     if parsed[0] != "ok":
         stats.case(canon(schema), False, ["parse:" + parsed[0]])
         return [{"sub": "parse", "kind": "parse-refused:" + parsed[1], "detail": list(parsed)}]
-    e1 = parsed[1]
+    elements1 = parsed[1]
+    e1 = elements1[0]
     fails = []
     try:
-        j1 = serialize_json(e1)
+        j1 = serialize_json(*elements1)
         json.dumps(j1)
     except Exception as exc:  # noqa: BLE001
         return [{"sub": "serialize", "kind": "serialize-raised:" + type(exc).__name__,
                  "detail": f"{observe.statham_frame(exc)}: {str(exc)[:160]}"}]
     docs_ = [j1]
+    bad = dangling_refs(json.loads(json.dumps(j1)))
+    if bad:
+        return [{"sub": "roundtrip", "kind": "J1-cannot-be-parsed-again:dangling-ref", "detail": bad, "J1": j1}]
     try:
         for _ in range(2):
             elements = reparse(docs_[-1])
@@ -121,10 +160,11 @@ def predicate(case, stats):
                           "after": docs_[i]})
             break
     # generated python
-    py = observe.ser_python(e1)
+    py = observe.ser_python(*elements1)
     from statham.serializers.orderer import get_children
 
-    classes = {c.__name__: c for c in [e1] + list(get_children(e1)) if isinstance(c, ObjectMeta)}
+    classes = {c.__name__: c for root in elements1 for c in [root] + list(get_children(root))
+               if isinstance(c, ObjectMeta)}
     if py[0] != "ok":
         fails.append({"sub": "python", "kind": "serialize-python-" + ":".join(map(str, py[:2])), "detail": list(map(str, py))})
     elif classes:
@@ -156,6 +196,28 @@ def predicate(case, stats):
 replay_predicate = predicate
 
 
+@st.composite
+def cases(draw):
+    schema = draw(sg.schemas(cfg()))
+    case = {"schema": schema}
+    if isinstance(schema, dict) and draw(st.integers(0, 3)) == 0:
+        # a document with definitions: independent schemas, a structural twin of the root under another
+        # title, and a user of the definitions (parse() returns root + definitions)
+        defs = {}
+        if schema.get("type") == "object" and draw(st.booleans()):
+            twin = copy.deepcopy({k: v for k, v in schema.items() if k != "definitions"})
+            twin["title"] = draw(st.sampled_from(["Twin", "Other", "Foo", "Bar"]))
+            defs["twin"] = twin
+        for i in range(draw(st.integers(0, 2))):
+            defs["d%d" % i] = draw(sg.schemas(cfg(), depth=2))
+        if defs:
+            keys = sorted(defs)
+            defs["user"] = {"type": "object", "title": "User", "properties": {
+                "p%d" % i: {"$ref": "#/definitions/" + k} for i, k in enumerate(keys)}}
+            case["definitions"] = defs
+    return case
+
+
 def run_shard(ctx, stats):
-    strat = sg.schemas(cfg()).map(lambda s: {"schema": s})
+    strat = cases()
     return runner.hyp_run(ctx, stats, strat, predicate, BUDGET[ctx.tier])
